@@ -159,7 +159,7 @@ def judge_sph(inp, obs, lr):
             return {"expected": "model answer", "observed": r, "tags": {"driver_err": r["err"], "what": "s2p"}}
         mv = decpt(r["ok"])
         iv = np.array([complex(*z) for z in obs["s2p"][i]])
-        if not close(iv, mv, 1e-9):
+        if not proj_close(iv, mv, 1e-9):       # the public contract is the projective point, not the representative
             return {"expected": {"model": r["ok"]}, "observed": obs["s2p"][i], "tags": {"what": "s2p"}}
     return None
 
@@ -221,15 +221,25 @@ def lean_disk(inp, obs):
     return ops
 
 
+def _qhom(pt):
+    """a homogeneous point of the implementation ([[re, im], [re, im]] floats) sent exactly"""
+    return [[Q.qs(pt[0][0]), Q.qs(pt[0][1])], [Q.qs(pt[1][0]), Q.qs(pt[1][1])]]
+
+
 def lean_disk2(inp, obs):
-    # second stage needs the model's points: recompute them exactly here (same formulas as diskPoints)
+    # the model's Moebius action / complement are applied to the implementation's OWN four homogeneous points (any boundary
+    # triple and any representatives are valid); the model's disk is only compared through centre, radius and center_inside
     ops = []
-    for c, r in zip(inp["c"], inp["r"]):
+    for i, (c, r) in enumerate(zip(inp["c"], inp["r"])):
         ops.append({"op": "c20.disk", "c": c, "r": r})
-        pts = _exact_disk_points((F(c[0]), F(c[1])), F(r))
-        hp = [_hom(p) for p in pts]
+        if "exc" in obs:
+            ops += [{"op": "c20.mobius", "m": inp["M"], "pts": []}, {"op": "c20.complement", "pts": []}, {"op": "c20.circle", "p1": ["0", "0"], "p2": ["1", "0"], "p3": ["0", "1"]}]
+            continue
+        hp = [_qhom(pt) for pt in obs["orig"][4 * i: 4 * i + 4]]
         ops.append({"op": "c20.mobius", "m": inp["M"], "pts": hp})
         ops.append({"op": "c20.complement", "pts": hp})
+        b = obs["pts"][i]
+        ops.append({"op": "c20.circle", "p1": [Q.qs(b[0][0]), Q.qs(b[0][1])], "p2": [Q.qs(b[1][0]), Q.qs(b[1][1])], "p3": [Q.qs(b[2][0]), Q.qs(b[2][1])]})
     return ops
 
 
@@ -256,8 +266,8 @@ def judge_disk(inp, obs, lr):
     if not obs["caller_centre_kept"]:
         return {"expected": "caller's centre array untouched", "observed": "modified", "tags": {"what": "aliasing"}, "property_failure": True}
     for i, (c, r) in enumerate(zip(inp["c"], inp["r"])):
-        d, mob, comp = lr[3 * i: 3 * i + 3]
-        for nm, res in (("disk", d), ("mobius", mob), ("complement", comp)):
+        d, mob, comp, circ = lr[4 * i: 4 * i + 4]
+        for nm, res in (("disk", d), ("mobius", mob), ("complement", comp), ("circle", circ)):
             if "err" in res:
                 return {"expected": "model answer", "observed": res, "tags": {"driver_err": res["err"], "what": nm}}
         m = d["ok"]
@@ -266,8 +276,15 @@ def judge_disk(inp, obs, lr):
             pf = not close(obs["centre"][i], cf, 1e-9) or not close(obs["radius"][i], float(F(r)), 1e-9)
             return {"expected": {"centre": m["centre"], "radius2": m["radius2"]}, "observed": {"centre": obs["centre"][i], "radius": obs["radius"][i]},
                     "tags": {"what": "circle_parameters", "reports_requested": not pf}, "property_failure": pf}
-        if not close(obs["pts"][i], Q.decf(m["pts"]), 1e-9):
-            return {"expected": {"pts": m["pts"]}, "observed": obs["pts"][i], "tags": {"what": "boundary points"}}
+        # the stored boundary triple is any three points of the circle: the model's circle_through on the implementation's
+        # own triple (exact arithmetic) must be the requested circle, and the interior point must be the centre's side
+        cq = circ["ok"]
+        if not close(Q.decf(cq["centre"]), cf, 1e-8) or not close(float(F(cq["radius2"])), float(F(r)) ** 2, 1e-8):
+            return {"expected": {"circle through the stored boundary triple": [cf, float(F(r))]}, "observed": cq, "tags": {"what": "boundary triple"},
+                    "property_failure": True}
+        ip = obs["pts"][i][3]
+        if not ((ip[0] - cf[0]) ** 2 + (ip[1] - cf[1]) ** 2 < float(F(r)) ** 2):
+            return {"expected": "interior point inside the circle", "observed": ip, "tags": {"what": "interior point"}, "property_failure": True}
         if obs["inside"][i] != m["inside"]:
             return {"expected": m["inside"], "observed": obs["inside"][i], "tags": {"what": "center_inside"}}
         for j in range(4):
@@ -318,12 +335,13 @@ def gen_rel(rng, n):
             pairs = zip(S, O) if mode == "elementwise" else ((s, o) for s in S for o in O)
             if all(general_position(s, o) for s, o in pairs):
                 break
-        yield {"mode": mode, "S": S, "O": O}
+        # G12: the image of the configuration under z -> s z (s = 10^k, k in -12..12) has the same answers
+        yield {"mode": mode, "S": S, "O": O, "zoom": (10.0 ** rng.choice([rng.randint(-12, 12), rng.randint(-12, -9), rng.randint(9, 12)])) if rng.random() < 0.5 else 1.0}
 
 
-def build_disks(ds):
-    c = np.array([complex(*d["c"]) for d in ds])
-    r = np.array([d["r"] for d in ds])
+def build_disks(ds, zoom=1.0):
+    c = np.array([complex(*d["c"]) for d in ds]) * zoom
+    r = np.array([d["r"] for d in ds]) * zoom
     base = CP.CP1Disk(c, r)
     comp = base.complement()
     data = np.array([base.proj_data[i] if d["bounded"] else comp.proj_data[i] for i, d in enumerate(ds)])
@@ -331,7 +349,7 @@ def build_disks(ds):
 
 
 def run_rel(inp):
-    S, O = build_disks(inp["S"]), build_disks(inp["O"])
+    S, O = build_disks(inp["S"], inp.get("zoom", 1.0)), build_disks(inp["O"], inp.get("zoom", 1.0))
     s_aff, o_aff = S.center_inside(), O.center_inside()
     sc, sr = S.circle_parameters()
     oc, orad = O.circle_parameters()
@@ -384,10 +402,15 @@ def gen_pt(rng, n):
                 zs.append([[0.0, 0.0], [rng.gauss(0, 1), rng.gauss(0, 1)]])
             elif t < 0.2:
                 zs.append([[rng.gauss(0, 1), rng.gauss(0, 1)], [0.0, 0.0]])
-            else:
+            elif t < 0.6:
                 s = math.exp(rng.uniform(-3, 3))
                 zs.append([[rng.gauss(0, 1), rng.gauss(0, 1)], [rng.gauss(0, s), rng.gauss(0, s)]])
-        yield {"pts": zs}
+            else:
+                # G12: |w| = 10^k, k in -9..9, and overall sizes 10^m of the homogeneous pair
+                w = 10.0 ** rng.randint(-9, 9) * cmath.exp(1j * rng.uniform(0, 2 * math.pi)) * rng.uniform(1, 9)
+                g = 10.0 ** rng.randint(-9, 9) * cmath.exp(1j * rng.uniform(0, 2 * math.pi))
+                zs.append([[g.real, g.imag], [(g * w).real, (g * w).imag]])
+        yield {"pts": zs, "int_affine": [[rng.randint(-5, 5), rng.randint(-5, 5)] for _ in range(3)]}
 
 
 def run_pt(inp):
@@ -408,6 +431,23 @@ def run_pt(inp):
             n = abs(z) ** 2
             ref.append([2 * z.real / (n + 1), 2 * z.imag / (n + 1), (n - 1) / (n + 1)])
     res["stereo"] = err(s, np.array(ref))
+    # non-default option: column vectors
+    res["p2s_column_vectors"] = err(np.asarray(CP.projective_to_spherical(p.T, column_vectors=True), float), s.T)
+    res["s2p_column_vectors"] = 0.0 if proj_close(np.asarray(CP.spherical_to_projective(s.T, column_vectors=True)).T, p, 1e-9) else 1.0
+    # coordinates of every dtype and container: integer-valued real_affine pairs, the six axis points of the sphere
+    ia = np.array(inp.get("int_affine", [[2, -3]]))
+    want_i = np.array([[2 * x / (x * x + y * y + 1), 2 * y / (x * x + y * y + 1), (x * x + y * y - 1) / (x * x + y * y + 1)] for x, y in ia.astype(float)])
+    axes_ = np.array([[0, 0, 1], [0, 0, -1], [1, 0, 0], [-1, 0, 0], [0, 1, 0], [0, -1, 0]])
+    for lab, conv in (("int64", lambda a: np.asarray(a, np.int64)), ("int32", lambda a: np.asarray(a, np.int32)), ("float32", lambda a: np.asarray(a, np.float32)),
+                      ("float64", lambda a: np.asarray(a, np.float64)), ("list", lambda a: np.asarray(a).tolist()),
+                      ("fortran", lambda a: np.asfortranarray(np.asarray(a, np.float64))), ("view", lambda a: np.repeat(np.asarray(a, np.float64), 2, axis=1)[:, ::2])):
+        try:
+            q_ = CP.CP1Point(conv(ia), coords="real_affine")
+            res["real_affine_" + lab] = err(np.asarray(q_.spherical_coords(), float), want_i) / (1e4 if lab == "float32" else 1.0)
+            q2_ = CP.CP1Point(conv(axes_), coords="spherical")
+            res["spherical_" + lab] = err(np.asarray(q2_.spherical_coords(), float), axes_.astype(float))
+        except Exception as ex:  # noqa: BLE001
+            res["real_affine_" + lab] = float("inf")
     fin = np.array([a != 0 for a, b in p])
     if fin.any():
         aff = (p[fin, 1] / p[fin, 0])
@@ -617,7 +657,7 @@ def gen_rel_oracle(rng, n):
 
 
 def run_rel_oracle(inp):
-    S, O = build_disks(inp["S"]), build_disks(inp["O"])
+    S, O = build_disks(inp["S"], inp.get("zoom", 1.0)), build_disks(inp["O"], inp.get("zoom", 1.0))
     out = {}
     for nm in ("contains", "intersects"):
         try:
@@ -665,32 +705,51 @@ def run_fs(inp):
         d = CP.CP1Disk(np.array([complex(*inp["c"])]), np.array([inp["rad"]]), radius_metric="fs")
     finally:
         np.linalg.qr = orig
-    q, r = seen["q"].reshape(3, 3), seen["r"].reshape(3, 1)
     sph = np.asarray(d.boundary_points().spherical_coords(), float).reshape(3, 3)
     ctr = np.asarray(CP.CP1Point(np.array([complex(*inp["c"])]), coords="cx_affine").spherical_coords(), float).reshape(3)
-    return {"q": q.tolist(), "r00": float(r[0, 0]), "c2": float(np.cos(2 * inp["rad"])), "s2": float(np.sin(2 * inp["rad"])),
-            "sph": sph.tolist(), "ctr": ctr.tolist(),
-            "contract": max(err(q.T @ q, np.eye(3)), err(q[:, 0] * r[0, 0], ctr))}
+    out = {"c2": float(np.cos(2 * inp["rad"])), "s2": float(np.sin(2 * inp["rad"])), "sph": sph.tolist(), "ctr": ctr.tolist(),
+           "distinct": float(min(np.linalg.norm(sph[i] - sph[j]) for i in range(3) for j in range(i))),
+           "interior": np.asarray(d.interior_point().spherical_coords(), float).reshape(3).tolist()}
+    if "q" in seen and seen["q"].size == 9:
+        # (only when the implementation factorises the centre with numpy.linalg.qr: the model's construction on those factors)
+        q, r = seen["q"].reshape(3, 3), seen["r"].reshape(3, 1)
+        out.update({"q": q.tolist(), "r00": float(r[0, 0]), "contract": max(err(q.T @ q, np.eye(3)), err(q[:, 0] * r[0, 0], ctr))})
+    return out
 
 
 def lean_fs(inp, obs):
     if "exc" in obs:
         return []
-    q = np.array(obs["q"])
-    return [{"op": "c20.fs_boundary", "q0": [Q.qs(x) for x in q[:, 0]], "q1": [Q.qs(x) for x in q[:, 1]], "q2": [Q.qs(x) for x in q[:, 2]],
-             "r00": Q.qs(obs["r00"]), "c2": Q.qs(obs["c2"]), "s2": Q.qs(obs["s2"])}]
+    ops = [{"op": "c20.fs_residual", "pts": [[Q.qs(x) for x in p_] for p_ in obs["sph"]], "ctr": [Q.qs(x) for x in obs["ctr"]], "c2": Q.qs(obs["c2"])}]
+    if "q" in obs:
+        q = np.array(obs["q"])
+        ops.append({"op": "c20.fs_boundary", "q0": [Q.qs(x) for x in q[:, 0]], "q1": [Q.qs(x) for x in q[:, 1]], "q2": [Q.qs(x) for x in q[:, 2]],
+                    "r00": Q.qs(obs["r00"]), "c2": Q.qs(obs["c2"]), "s2": Q.qs(obs["s2"])})
+    return ops
 
 
 def judge_fs(inp, obs, lr):
     if "exc" in obs:
         return {"expected": "fs disk", "observed": obs, "tags": {"exc": obs["exc"]}, "property_failure": True}
-    if not (obs["contract"] <= 1e-9):
-        return {"expected": "QR contract (q orthogonal, q0*r00 = centre)", "observed": obs["contract"], "tags": {"what": "qr contract"}}
     if "err" in lr[0]:
         return {"expected": "model answer", "observed": lr[0], "tags": {"driver_err": lr[0]["err"]}}
-    mv = Q.decf(lr[0]["ok"])
-    if not close(obs["sph"], mv, 1e-9):
-        return {"expected": {"model": mv.tolist()}, "observed": obs["sph"], "tags": {"what": "fs boundary"}}
+    # public contract (conclusion of fs_disk_boundary), evaluated by the model on the implementation's boundary points:
+    # three DISTINCT points of the unit sphere at spherical angle 2*rad from the requested centre, interior point = the centre
+    resid = max(abs(float(F(x))) for pr in lr[0]["ok"] for x in pr)
+    if not (resid <= 1e-9) or not (obs["distinct"] > 1e-3 * abs(obs["s2"])):
+        return {"expected": "three distinct boundary points at Fubini-Study distance rad from the centre", "observed": {"residual": resid, "sph": obs["sph"]},
+                "tags": {"what": "fs boundary"}, "property_failure": True}
+    if not close(obs["interior"], obs["ctr"], 1e-9):
+        return {"expected": {"interior point": obs["ctr"]}, "observed": obs["interior"], "tags": {"what": "fs interior"}, "property_failure": True}
+    if "q" in obs and len(lr) > 1:
+        if not (obs["contract"] <= 1e-9):
+            return {"expected": "QR contract (q orthogonal, q0*r00 = centre)", "observed": obs["contract"], "tags": {"what": "qr contract"}}
+        if "ok" in lr[1]:
+            # the model's construction on the observed factors satisfies the same contract (no comparison of the particular triple)
+            mv = Q.decf(lr[1]["ok"])
+            ctr = np.array(obs["ctr"])
+            if not close((mv * mv).sum(-1), np.ones(3), 1e-9) or not close(mv @ ctr, np.full(3, obs["c2"]), 1e-9):
+                return {"expected": "model boundary points satisfy the contract", "observed": mv.tolist(), "tags": {"what": "fs model"}}
     return None
 
 
@@ -918,7 +977,7 @@ CLAUSES = [
     Clause("relations_corr", "corr", gen_rel, run_rel, judge_rel, lean=lean_rel, site="complex_projective.CP1Disk.contains / intersects",
            budget={"quick": 150, "thorough": 3000},
            what="contains/intersects, elementwise and pairwise, all bounded/unbounded combinations, vs the model's mask plumbing fed with the implementation's center_inside and disk_interactions tables"),
-    Clause("fs_corr", "corr", gen_fs, run_fs, judge_fs, lean=lean_fs, site="complex_projective.CP1Disk._compute_proj_data(radius_metric='fs')",
+    Clause("fs_corr", "corr", gen_fs, run_fs, judge_fs, lean=lean_fs, site="complex_projective.CP1Disk(radius_metric='fs')",
            budget={"quick": 60, "thorough": 1500},
            what="the three spherical boundary points of CP1Disk(c, rad, 'fs') vs fsBoundary fed with the observed QR factors (numpy.linalg.qr wrapped in-process) and cos/sin(2 rad); QR contract residual"),
     Clause("points_oracle", "oracle", gen_pt, run_pt, judge_pt, site="complex_projective.CP1Point",
